@@ -1,5 +1,6 @@
 import EpdVerif.AuditCmd
 import EpdVerif.Props.C06
 import EpdVerif.Props.C06Win
+import EpdVerif.Props.C06Bytewise
 import EpdVerif.Props.Panels
 #audit_namespace EpdVerif.Props.C06
